@@ -27,7 +27,7 @@ ASSUMPTIONS = [
 ]
 
 CFG_ON = gen.Cfg(max_cols=6, max_rows=40, nrow_range=(1, 50), allow_group_by=False, half_points=False,
-                 as_colheader_false=False, long_text=0.2, subline_return=0.3, page_by_return=0.3)
+                 as_colheader_false=False, long_text=0.2, subline_return=0.3, page_by_return=0.3, group_blanks=True)
 CFG_OFF = replace(CFG_ON, alphabet=gen.ALPHA_CONVERT_OFF, convert_off_body=True)
 CFG_SMALL = replace(CFG_ON, max_rows=14, nrow_range=(1, 9))
 # text_convert per original column: verbatim columns carry ^ _ >= <=, converting columns (and the group keys) do not
